@@ -108,7 +108,7 @@ fn build(r: &mut Rng, id: usize) -> Built {
                let a = *ax.vec(); let t: Tree = Plane { axis: ax, offset: off }.into();
                Built { id, params: vec![a.x, a.y, a.z, off], inputs: vec![], tree: t,
                        expect: bx!(move |p: [f64; 3]| Some(a.x as f64 * p[0] + a.y as f64 * p[1] + a.z as f64 * p[2] - off as f64)), exact_sign_only: false, name: "Plane" } }
-        5 | 6 => { let n = r.range(0, 5); let bs: Vec<Base> = (0..n).map(|_| Base::random(r)).collect(); let ts: Vec<Tree> = bs.iter().map(|b| b.tree()).collect();
+        5 | 6 => { let n = if r.chance(0.4) { r.range(6, 15) } else { r.range(0, 5) }; let bs: Vec<Base> = (0..n).map(|_| Base::random(r)).collect(); let ts: Vec<Tree> = bs.iter().map(|b| b.tree()).collect();
                let t: Tree = if id == 5 { Union { input: ts.clone() }.into() } else { Intersection { input: ts.clone() }.into() };
                let isu = id == 5;
                Built { id, params: vec![], inputs: ts, tree: t, expect: bx!(move |p: [f64; 3]| Some(bs.iter().map(|b| b.val(p)).fold(if isu { f64::INFINITY } else { f64::NEG_INFINITY }, |a, v| if isu { a.min(v) } else { a.max(v) }))),
